@@ -1216,7 +1216,7 @@ func init() {
 				// the race detector; reported here: race reports, watchers that were never shown the latest version
 				// of a record, gaps in the transaction log
 				p := &engine.Profile{Targets: []string{"t1", "t2"}, MinOps: 5, MaxOps: 10, PMulti: 35, PPoison: 12, PEq: 10, PDevReject: 8, PDelete: 30,
-					PRollback: 15, PEnv: 25, PNoWait: 60, PSync: 25, PStartOffline: 25, PDevFault: 10, Paths: "rich"}
+					PRollback: 15, PEnv: 25, PNoWait: 60, PSync: 25, PStartOffline: 25, PDevFault: 10, PSerializable: 25, Paths: "rich"}
 				if e := s2Run(c, "C15", p); e != nil {
 					c.Count("in_vivo_histories", 1)
 					c.Class("in-vivo")
